@@ -197,6 +197,18 @@ class DFunction(Saveable, DataSaveable):
 
         self._splines_initialized = False
 
+    def set_data_protected(self):
+        """Called when new data were put into the function (load_data)
+        
+        The values decide if the function has an imaginary part, and 
+        interpolation splines, if any, belong to the earlier data.
+        
+        """
+        if self.data is not None:
+            self._has_imag = bool(numpy.iscomplexobj(self.data))
+        self._splines_initialized = False
+
+
     def _make_me(self, x, y):
         """Creates the DFunction internals
         
@@ -204,6 +216,8 @@ class DFunction(Saveable, DataSaveable):
         """
 
         self._has_imag = False
+        # interpolation splines, if any, belong to earlier data
+        self._splines_initialized = False
 
         if isinstance(x, ValueAxis):
             self.axis = x
@@ -275,6 +289,8 @@ class DFunction(Saveable, DataSaveable):
             if self.axis == xaxis:
                 # add data
                 self.data += data
+                # interpolation splines, if any, belong to the earlier data
+                self._splines_initialized = False
             else: 
                 raise Exception("On addition, axis objects have to be"
                                 +" identical")
@@ -549,8 +565,8 @@ class DFunction(Saveable, DataSaveable):
         
         """
         self.data = func(self.data)
-        if self._splines_initialized:
-            self._splines_initiated = False
+        # interpolation splines, if any, belong to the earlier data
+        self._splines_initialized = False
 
 
     #
